@@ -100,7 +100,12 @@ def case(draw):
     if not toks:
         return {"kind": "valid", "text": text}
     op = draw(st.sampled_from(["delete", "insert", "substitute", "swap", "truncate"]))
-    i = draw(st.integers(0, len(toks) - 1))
+    i = draw(st.sampled_from(range(len(toks))))
+    if op == "truncate" and draw(st.booleans()):
+        # cut at the start of a line (the text then ends with a line terminator: end-of-input errors on a fresh line)
+        starts = [j for j in range(1, len(toks)) if toks[j - 1].name == "NEWLINE"]
+        if starts:
+            i = draw(st.sampled_from(starts))
     t = toks[i]
     if op == "delete":
         new = text[:t.start] + text[t.stop + 1:]
